@@ -33,7 +33,10 @@ def run_tlc(module, cfg=None, workers=None, timeout=900, env=None, simulate=None
     cfg = cfg or (module + ".cfg")
     meta = scratch_dir("tlc")
     workers = workers or NCPU
-    java = ["java", "-XX:+UseParallelGC", "-Xmx" + heap]
+    if workers <= 2:
+        java = ["java", "-XX:+UseSerialGC", "-XX:TieredStopAtLevel=1", "-Xmx" + heap]
+    else:
+        java = ["java", "-XX:+UseParallelGC", "-XX:ParallelGCThreads=%d" % max(2, min(8, workers // 2)), "-Xmx" + heap]
     if dfs:
         java.append("-Dtlc2.tool.queue.IStateQueue=StateDeque")
     cmd = java + ["-cp", JAR + ":" + DEPS, "tlc2.TLC", "-config", cfg, "-workers", str(workers), "-metadir", meta,
